@@ -7,6 +7,7 @@ regenerated from the Rust source).
 Correspondence: the real binary (`show --json`, `show` piped = tab-delimited, `--terminal show`, the same bytes on
 stdin) against the extracted Summary model on generated torrents, and against an independent Python reading of the
 file (lib.bdecode_strict + hashlib + datetime + posixpath) which is the direct oracle."""
+import zlib
 import datetime, hashlib, ipaddress, json, os, posixpath, re, shutil, tempfile
 import lib
 
@@ -586,13 +587,21 @@ ARGS = {
 }
 
 
+TIME_ZONES = [None, "UTC", "XXX-5", "YYY8", "ZZZ-5:30", "AAA-14", None]
+
+
 def run_binary(ctx, tmp, data):
     d = tempfile.mkdtemp(dir=tmp)
     with open(os.path.join(d, "t.torrent"), "wb") as f:
         f.write(data)
     runs = {}
+    # the report must not depend on the process's time zone (dates are shown in UTC): POSIX TZ strings, chosen from the input
+    tz = TIME_ZONES[zlib.crc32(data) % len(TIME_ZONES)]
+    env = {"NO_COLOR": "1"}
+    if tz is not None:
+        env["TZ"] = tz
     for k, (argv, stdin) in ARGS.items():
-        runs[k] = ctx.imdl(argv, cwd=d, stdin=data if stdin else b"", env={"NO_COLOR": "1"}, timeout=60)
+        runs[k] = ctx.imdl(argv, cwd=d, stdin=data if stdin else b"", env=env, timeout=60)
     shutil.rmtree(d, ignore_errors=True)
     return runs
 
